@@ -31,12 +31,23 @@ def _seq(xs):
     return "<<" + ",".join('"%s"' % x for x in xs) + ">>"
 
 
+def _copy_atomic(src, dst):
+    """checks of different properties may run side by side and share this directory: never expose a half-written copy"""
+    import os
+    txt = src.read_text()
+    if dst.exists() and dst.read_text() == txt:
+        return
+    tmp = dst.with_suffix(".tmp%d" % os.getpid())
+    tmp.write_text(txt)
+    os.replace(tmp, dst)
+
+
 def write_model(name, c, export):
     b = lambda x: "TRUE" if x else "FALSE"
     mod = f"MCR_{name}"
     d = vlib.BUILD / "registry"
     d.mkdir(parents=True, exist_ok=True)
-    (d / "Registry.tla").write_text((vlib.SPEC / "Registry.tla").read_text())
+    _copy_atomic(vlib.SPEC / "Registry.tla", d / "Registry.tla")
     (d / (mod + ".tla")).write_text(f"---- MODULE {mod} ----\nEXTENDS Registry\nconst_order == {_seq(c['order'])}\n"
                                     f"const_sets == {{{','.join(_seq(s) for s in c['sinksets'])}}}\n====\n")
     txt = ("SPECIFICATION Spec\nCONSTANTS\n SinkNames = %s\n LoggerOrder <- const_order\n SinkSets <- const_sets\n NStmt = %d\n NOps = %d\n"
